@@ -240,6 +240,13 @@ func c11Check(c *Ctx, m map[string]interface{}, op, path, newName string) (nontr
 			c.Violate(api, "postcondition", shape, cas, nil, detail(fmt.Sprintf("ValueForPath afterwards = %s, %v", dump(v), e)))
 		}
 	case "remove":
+		if !strict && len(diffs) > 0 {
+			// Remove and RenameKey walk through nested maps only: a path that does not lead through maps to its
+			// last key (a scalar, list or typed value on the way, a missing key) cannot be applied and must fail
+			// without touching the Map - whatever entry of the same name may exist elsewhere
+			c.Violate(api, "frame", shape, cas, nil, detail(fmt.Sprintf("the path does not lead through nested maps to an entry, yet the call succeeded and changed the Map: %+v", diffs)))
+			return
+		}
 		if len(diffs) != 1 || diffs[0].kind != "removed" || !strings.HasSuffix(diffs[0].loc, "/"+last) {
 			c.Violate(api, "frame", shape, cas, nil, detail(fmt.Sprintf("expected exactly one entry %q removed; differences: %+v", last, diffs)))
 			return
@@ -256,6 +263,10 @@ func c11Check(c *Ctx, m map[string]interface{}, op, path, newName string) (nontr
 			}
 		}
 	case "rename":
+		if !strict && len(diffs) > 0 {
+			c.Violate(api, "frame", shape, cas, nil, detail(fmt.Sprintf("the path does not lead through nested maps to an entry, yet the call succeeded and changed the Map: %+v", diffs)))
+			return
+		}
 		var rem, add *diffEntry
 		ok := len(diffs) == 2
 		if ok {
